@@ -263,7 +263,11 @@ class OdeModel:
                 _, callee = _pkg.resolve("TemplateLoader", f_.attr)
                 if callee is not None and callee is not self.func:
                     return _fold(callee), f_.value
+            # ... and so is a block extracted into a plain FUNCTION of the module that is handed the lists (`_add_thermal(y, flag)`)
+            if isinstance(f_, ast.Name) and f_.id not in _ANCHORS and (FILE, f_.id) in _pkg.functions and f_.id not in _local_names:
+                return _fold(_pkg.functions[(FILE, f_.id)]), None
             return None
+        _local_names = {n.id for n in ast.walk(self.func) if isinstance(n, ast.Name) and isinstance(n.ctx, ast.Store)} | {a.arg for a in self.func.args.args}
         func = inline_constants(_copy.deepcopy(self.func), pkg, "TemplateLoader")
         # the modifier tables walked by key (`for name in ode_modifier: expr = ode_modifier[name]`) are walked by .items()
         from .normalize import dict_key_loops_to_items
@@ -463,8 +467,9 @@ class OdeModel:
         `any([h, c])`, `int(..)` of these"""
         v = simp(v)
         hc = {self.HEAT, self.COOL}
-        if v[0] == "ifexp" and v[2] in (("const", True), ("const", 1)) and v[3] in (("const", False), ("const", 0)):
-            v = v[1]
+        # `True if c else False`, also written as the statement `if c: flag = True / else: flag = False` (a phi of the two constants)
+        if v[0] in ("ifexp", "phi") and v[2] in (("const", True), ("const", 1)) and v[3] in (("const", False), ("const", 0)):
+            v = simp(v[1])
         if v[0] == "call" and v[1] in (("global", "bool"), ("global", "int")) and len(v[2]) == 1 and not v[3]:
             return self.is_has_thermal(v[2][0])
         if v[0] == "call" and v[1] == ("global", "any") and len(v[2]) == 1 and v[2][0][0] in ("list", "tuple"):
